@@ -170,3 +170,15 @@ claim("C18", "Lean 4 proofs about the training loop for an ARBITRARY optimiser f
       "same-region crossings give contradiction loss 0 and negative uncertainty loss) is listed and replayed. Which epochs take an optimiser step "
       "(loss.grad_fn, convergence) is an input of the model. Inference with negative weights is not modelled. Observed outside the property: with "
       "non-dyadic (Adam) parameters float rounding can make infer() creep by > 1e-7 per sweep indefinitely; the check caps sweeps on both sides.", "DESIGN.md §6 C18")
+claim("C08", "Lean 4 proof about an identity-based registry model (DFS numbering invariant over arbitrary add_knowledge histories) + per-object differential oracle on KBs with structurally equal distinct objects",
+      "Theorems C08_every_object_numbered / C08_numbers_injective / C08_registered_once / C08_nodes_own_number / _functional / _lookup / "
+      "C08_nodes_exactly_reachable / C08_graph_exactly_reachable / _nodup / C08_values_exactly_reachable / _nodup (every object reachable from any "
+      "root has exactly one number, no two objects share one -- in particular two structurally equal separate objects get two -- Model.nodes is a "
+      "bijection between the numbers in use and the reachable objects, and graph / nodes.values(), over which every model-wide operation iterates, "
+      "contain exactly the reachable objects, each once), C08_readd_keeps_number / C08_readd_root (re-adding registered formulae changes nothing), "
+      "C08_calls / C08_inv (all of it for ANY history of add_knowledge calls with several roots per call). Tied to /repo: KBs with 1-4 pairs of "
+      "structurally equal distinct objects (user-written, Iff-induced), roots in one or several calls and twice, data before/after adding; per "
+      "object: own number, unique, in graph, parameters collected, called by upward()/downward(), reached by flush(); bounds after "
+      "upward/downward/infer/reset_bounds/flush compared with the identity-based engine model (reads and writes go to that same object).",
+      NOTE_COMMON + " The model follows the repaired code (formulae are graph nodes by identity; a registered formula is not renumbered). 'Attaching data "
+      "never makes a later operation fail' is checked on the implementation only. Sharing one formula object between two Models is out of scope.", "DESIGN.md §6 C08")
